@@ -179,10 +179,10 @@ func (r *syncRunner) disconnectNotifies(b *fblock) bool {
 //     (ntfn.detached-missing);
 //   - every attached block is a block of the backend with that height, its transactions are transactions of that
 //     block (ntfn.attached-unknown-block, ntfn.tx-not-in-block);
-//   - a client that follows the attached blocks (block at height h replaces what it has from h up; a block it already
-//     has at that height changes nothing) never sees a gap (ntfn.attached-gap) and, whenever a notification with
-//     attached blocks was delivered during the op, ends the op with exactly the backend's best chain
-//     (ntfn.replay-mismatch).
+//   - a client that follows the notifications (an attached block at height h replaces what the client has from h up,
+//     a block it already has at that height changes nothing; then every detached block that is the client's tip is
+//     removed) never sees a gap (ntfn.attached-gap) and, whenever a notification with attached blocks was delivered
+//     during the op, ends the op with exactly the backend's best chain (ntfn.replay-mismatch).
 func (r *syncRunner) ntfns() (string, string) {
 	if r.col == nil {
 		return "", ""
@@ -236,6 +236,11 @@ func (r *syncRunner) ntfns() (string, string) {
 		for _, d := range n.DetachedBlocks {
 			ds = append(ds, r.env.fc.idOf(*d))
 			r.gotDet = append(r.gotDet, *d)
+			// a detached block that is (still) the client's tip after the attached blocks were applied: the chain
+			// got shorter (pure rollback); any other detached block was replaced by an attached one or never seen
+			if k := len(r.cchain); k > 1 && r.cchain[k-1] == *d {
+				r.cchain = r.cchain[:k-1]
+			}
 		}
 		for _, t := range n.UnminedTransactions {
 			id, ok := r.txID[*t.Hash]
@@ -1161,6 +1166,29 @@ func (syncEngine) Generate(rng *rand.Rand, tier string) []core.Case {
 			g.step(true, recw)
 		}
 		fin(g, "valid-evolution", "recovery-window")
+	}
+	// notification coalescing: pure rollbacks (empty branch), repeated connects, equal-length reorgs and the
+	// BlockConnected-before-RelevantTx order, which leave entries pending in the NotificationServer
+	for i := 0; i < n/3; i++ {
+		g := mk(0)
+		for j := 0; j < steps; j++ {
+			switch x := rng.Intn(12); {
+			case x < 3:
+				id := g.newBlock(g.tip(), nil)
+				g.best = append(g.best, id)
+				g.emit("ext id=%d mode=%s", id, []string{"a", "a", "b", "f"}[rng.Intn(4)])
+			case x < 5:
+				g.reorg(3, func(d int) int { return 0 })
+				g.tags["pure-rollback"] = true
+			case x < 7:
+				g.reorg(3, func(d int) int { return d })
+			case x < 9:
+				g.emit("dupc")
+			default:
+				g.step(true, 0)
+			}
+		}
+		fin(g, "valid-evolution", "ntfn-coalescing")
 	}
 	// malformed streams: differential only
 	for i := 0; i < n/4+1; i++ {
